@@ -1,4 +1,5 @@
 import Csproto.Model.Shim
+import Csproto.Model.Ext
 import Csproto.Bridge.Shim
 /-
   C12 — Extension accessors are coherent on every runtime.
@@ -20,48 +21,6 @@ import Csproto.Bridge.Shim
 -/
 namespace Csproto.C12
 open Csproto
-
-abbrev Val := Nat
-abbrev Store := List (Nat × Val)
-
-def sset (s : Store) (k : Nat) (v : Val) : Store := (k, v) :: s.filter (fun p => p.1 != k)
-def sget (s : Store) (k : Nat) : Option Val := (s.find? (fun p => p.1 == k)).map (·.2)
-def shas (s : Store) (k : Nat) : Bool := (sget s k).isSome
-def sclear (s : Store) (k : Nat) : Store := s.filter (fun p => p.1 != k)
-def skeys (s : Store) : List Nat := s.map (·.1)
-
-/-- dynamic type of the `ext` argument -/
-inductive DK where
-  | gogoDesc        -- *gogo.ExtensionDesc
-  | googleInfo      -- *protoimpl.ExtensionInfo (= *golang/protobuf ExtensionDesc; implements protoreflect.ExtensionType)
-  | otherV2Type     -- another protoreflect.ExtensionType implementation (e.g. dynamicpb)
-  | other
-deriving DecidableEq, Repr
-
-/-- the type assertion each arm of `extensions.go` makes on `ext` -/
-def accepts : MT → DK → Bool
-  | .gogo, .gogoDesc => true
-  | .googleV1, .googleInfo => true
-  | .google, .googleInfo => true
-  | .google, .otherV2Type => true
-  | _, _ => false
-
-inductive Out where
-  | unit | bool (b : Bool) | val (v : Option Val) | keys (ks : List Nat) | err | panic
-deriving DecidableEq, Repr
-
-def csHas (mt : MT) (dk : DK) (s : Store) (k : Nat) : Out :=
-  if accepts mt dk then .bool (shas s k) else .bool false
-def csGet (mt : MT) (dk : DK) (s : Store) (k : Nat) : Out :=
-  if accepts mt dk then .val (sget s k) else .err
-def csSet (mt : MT) (dk : DK) (s : Store) (k : Nat) (v : Val) : Store × Out :=
-  if accepts mt dk then (sset s k v, .unit) else (s, .err)
-def csClear (mt : MT) (dk : DK) (s : Store) (k : Nat) : Store × Out :=
-  if accepts mt dk then (sclear s k, .unit) else (s, .panic)
-def csClearAll (mt : MT) (s : Store) : Store × Out :=
-  if mt = .unknown then (s, .unit) else ([], .unit)
-def csRange (mt : MT) (s : Store) : Out :=
-  if mt = .unknown then .err else .keys (skeys s)
 
 /-! ### the abstract map is coherent -/
 
@@ -102,6 +61,39 @@ theorem transparent (mt : MT) (dk : DK) (s : Store) (k : Nat) (v : Val) (h : acc
     csSet mt dk s k v = (sset s k v, .unit) ∧ csClear mt dk s k = (sclear s k, .unit) := by
   simp [csHas, csGet, csSet, csClear, h]
 
+/-- **the property's clauses, for every extension number whatsoever** (the first or the last number of a
+    declared range, 2^29-1, …: the dispatcher never looks at the number, it only hands it to the store):
+    after Set, Has is true and Get returns the value; after Clear or ClearAll, Has is false and Range does not
+    visit it -/
+theorem set_then_has_get (mt : MT) (dk : DK) (s : Store) (k : Nat) (v : Val) (h : accepts mt dk = true) :
+    csHas mt dk (csSet mt dk s k v).1 k = .bool true ∧ csGet mt dk (csSet mt dk s k v).1 k = .val (some v) := by
+  simp [csHas, csGet, csSet, h, coherent_has_after_set, coherent_get_after_set]
+
+theorem clear_then_absent (mt : MT) (dk : DK) (s : Store) (k : Nat) (h : accepts mt dk = true) :
+    csHas mt dk (csClear mt dk s k).1 k = .bool false ∧
+    (∀ ks, csRange mt (csClear mt dk s k).1 = .keys ks → k ∉ ks) := by
+  have hm : mt ≠ .unknown := by intro e; subst e; cases dk <;> simp [accepts] at h
+  refine ⟨by simp [csHas, csClear, h, coherent_absent_after_clear], ?_⟩
+  intro ks hks
+  simp only [csRange, csClear, h, hm, if_true, if_false, Out.keys.injEq] at hks
+  subst hks
+  exact coherent_keys_after_clear s k
+
+theorem clearAll_then_absent (mt : MT) (dk : DK) (s : Store) (k : Nat) (h : accepts mt dk = true) :
+    csHas mt dk (csClearAll mt s).1 k = .bool false := by
+  have hm : mt ≠ .unknown := by intro e; subst e; cases dk <;> simp [accepts] at h
+  simp [csHas, csClearAll, h, hm, shas, sget]
+
+/-- the answers for two numbers differ only through the store: a dispatcher that treated some numbers
+    specially (say, the last one of a declared range) would not satisfy this -/
+theorem number_blind (mt : MT) (dk : DK) (s : Store) (k k' : Nat) (h : shas s k = shas s k') :
+    csHas mt dk s k = csHas mt dk s k' := by
+  simp [csHas, h]
+
+/-- non-vacuity at the boundaries: `extensions 100 to 199`, `extensions 1000 to max` -/
+example : (runCs .gogo .gogoDesc [] [.set 199 1, .set 536870911 2, .has 199, .has 536870911, .clear 199, .has 199, .range]).2
+    = [.unit, .unit, .bool true, .bool true, .unit, .bool false, .keys [536870911]] := by decide
+
 /-! ### mismatching descriptor: refused, message untouched -/
 
 theorem mismatch (mt : MT) (dk : DK) (s : Store) (k : Nat) (v : Val) (h : accepts mt dk = false) :
@@ -117,37 +109,6 @@ theorem cross_family_refused :
   refine ⟨rfl, rfl, rfl, rfl, ?_⟩; intro dk; cases dk <;> rfl
 
 /-! ### histories -/
-
-inductive Op where
-  | set (k : Nat) (v : Val) | clear (k : Nat) | clearAll | has (k : Nat) | get (k : Nat) | range
-
-/-- a history driven through csproto with descriptors of kind `dk` -/
-def runCs (mt : MT) (dk : DK) : Store → List Op → Store × List Out
-  | s, [] => (s, [])
-  | s, op :: ops =>
-    let (s', o) := match op with
-      | .set k v => csSet mt dk s k v
-      | .clear k => csClear mt dk s k
-      | .clearAll => csClearAll mt s
-      | .has k => (s, csHas mt dk s k)
-      | .get k => (s, csGet mt dk s k)
-      | .range => (s, csRange mt s)
-    let (s'', os) := runCs mt dk s' ops
-    (s'', o :: os)
-
-/-- the same history on the abstract map (the runtime's own API) -/
-def runSpec : Store → List Op → Store × List Out
-  | s, [] => (s, [])
-  | s, op :: ops =>
-    let (s', o) := match op with
-      | .set k v => (sset s k v, Out.unit)
-      | .clear k => (sclear s k, Out.unit)
-      | .clearAll => ([], Out.unit)
-      | .has k => (s, Out.bool (shas s k))
-      | .get k => (s, Out.val (sget s k))
-      | .range => (s, Out.keys (skeys s))
-    let (s'', os) := runSpec s' ops
-    (s'', o :: os)
 
 /-- **every history through csproto with the message's own descriptors is the history on the
     runtime's store**: same final state, same answers at every step -/
